@@ -948,6 +948,9 @@ def run(ck, root, thorough):
     # histories: sequences of calls on ONE server process across projects with different configurations (harness/c20hist.py)
     import c20hist
     hist = c20hist.Section(ck, base, R, stats, violation, thorough)
+    # list-valued configuration keys: a project whose configuration sets every list, then the project without configuration (harness/c20lists.py)
+    import c20lists
+    lists = c20lists.Section(ck, base, R, stats, violation, thorough)
 
     # ---- 2. decide
     def decide(sc, tool, args, target, mode, call_args, answer, main):
@@ -1039,6 +1042,7 @@ def run(ck, root, thorough):
         elif not isinstance(args, dict) and not (answer.get("is_error") or "rpc_error" in answer):
             violation("MCP %s accepts arguments that are not a JSON object: %s" % (tool, str(answer)[:300]), replay_of(plain, tool, args, None, {"answer": answer}))
     hist.decide()
+    lists.decide()
     R.pool.shutdown()
     stats["mcp_seconds"] = round(time.time() - t0, 1)
     return stats
